@@ -437,10 +437,12 @@ class LinOracles(Oracles):
 # --------------------------------------------------------------------------- bit_set::BitSet over concrete small ids (shared model)
 class SetV:
     """model of bit_set::BitSet over concrete small ids"""
-    __slots__ = ("s",)
+    __slots__ = ("s", "nbits")
 
-    def __init__(self, s=()):
+    def __init__(self, s=(), nbits=0):
         self.s = frozenset(s)
+        # length of the underlying bit vector (it only ever grows): what `get_ref().storage()` exposes
+        self.nbits = max(nbits, (max(self.s) + 1) if self.s else 0)
 
     def __repr__(self):
         return "set%s" % sorted(self.s)
@@ -457,12 +459,39 @@ def bitset_model(it, fn, args, dest_ty, term, caller, on_event=None):
         if items is None or not all(isinstance(x, Int) and x.is_conc() for x in items):
             raise Undecided("bit set collected from %r" % (args[0],))
         return SetV({x.val for x in items})
-    if not ("BitSet" in path or "bit_set" in path or "bit_set::BitSet" in fn.get("key", "")):
+    # the underlying bit vector of a set, read word by word: `set.get_ref().storage()` — block k, bit b (least significant first) = id 32k+b
+    if "bit_vec" in path or "BitVec" in path:
+        if name == "storage" and args:
+            r0 = args[0]
+            sv0 = it.read(r0.cell, r0.path) if isinstance(r0, Ref) else r0
+            while isinstance(sv0, Ref):
+                sv0 = it.read(sv0.cell, sv0.path)
+            if isinstance(sv0, SetV):
+                nb = (sv0.nbits + 31) // 32
+                words = [sum(1 << (i % 32) for i in sv0.s if i // 32 == k) for k in range(nb)]
+                return Ref(Cell(VecV([Int(32, False, val=w) for w in words]), "bitvec-storage"))
+        return NotImplemented
+    if not ("BitSet" in path or path.startswith("bit_set::") or "::bit_set::" in path or "bit_set::BitSet" in fn.get("key", "")):
         return NotImplemented
     if name in ("with_capacity", "new", "default"):
-        return SetV()
+        n0 = args[0].val if name == "with_capacity" and args and isinstance(args[0], Int) and args[0].is_conc() else 0
+        return SetV((), n0)
+    if name == "from_bytes" and len(args) == 1:
+        # bit_vec's byte order: bit 0 of the set is the MOST significant bit of byte 0
+        from .models import seq_of
+        sq = seq_of(it, args[0]) if isinstance(args[0], Ref) else None
+        if sq is not None and all(isinstance(e, Int) and e.is_conc() for e in sq[0].elems[sq[1]:sq[1] + sq[2]]):
+            ids = set()
+            for j, e in enumerate(sq[0].elems[sq[1]:sq[1] + sq[2]]):
+                for b in range(8):
+                    if (e.val >> (7 - b)) & 1:
+                        ids.add(8 * j + b)
+            return SetV(ids, 8 * sq[2])
+        raise Undecided("BitSet::from_bytes of %r" % (args[0],))
     if not args:
         return NotImplemented
+    if name in ("get_ref", "into_bit_vec") and len(args) == 1:
+        return args[0]
     r = args[0]
     sv = it.read(r.cell, r.path) if isinstance(r, Ref) else r
     if isinstance(sv, Ref):
@@ -478,13 +507,13 @@ def bitset_model(it, fn, args, dest_ty, term, caller, on_event=None):
     if name == "insert":
         if i is None:
             raise Undecided("insert of a symbolic id")
-        it.write(r.cell, r.path, SetV(sv.s | {i}))
+        it.write(r.cell, r.path, SetV(sv.s | {i}, sv.nbits))
         ev("insert", i)
         return mkbool(i not in sv.s)
     if name == "remove":
         if i is None:
             raise Undecided("remove of a symbolic id")
-        it.write(r.cell, r.path, SetV(sv.s - {i}))
+        it.write(r.cell, r.path, SetV(sv.s - {i}, sv.nbits))
         ev("remove", i)
         return mkbool(i in sv.s)
     if name == "contains":
@@ -498,7 +527,7 @@ def bitset_model(it, fn, args, dest_ty, term, caller, on_event=None):
             raise Undecided("bit set extended by %r" % (args[1],))
         for x in items:
             ev("insert", x.val)
-        it.write(r.cell, r.path, SetV(sv.s | {x.val for x in items}))
+        it.write(r.cell, r.path, SetV(sv.s | {x.val for x in items}, sv.nbits))
         return Tup([])
     if name in ("iter", "into_iter"):
         items = [Int(64, False, val=x) for x in sorted(sv.s)]
@@ -508,7 +537,7 @@ def bitset_model(it, fn, args, dest_ty, term, caller, on_event=None):
     if name == "is_empty":
         return mkbool(not sv.s)
     if name == "clear":
-        it.write(r.cell, r.path, SetV())
+        it.write(r.cell, r.path, SetV((), sv.nbits))
         return Tup([])
     if name == "clone":
         return sv
@@ -517,6 +546,6 @@ def bitset_model(it, fn, args, dest_ty, term, caller, on_event=None):
         ov = it.read(o.cell, o.path) if isinstance(o, Ref) else o
         if isinstance(ov, SetV):
             ns = {"union_with": sv.s | ov.s, "intersect_with": sv.s & ov.s, "difference_with": sv.s - ov.s}[name]
-            it.write(r.cell, r.path, SetV(ns))
+            it.write(r.cell, r.path, SetV(ns, max(sv.nbits, ov.nbits)))
             return Tup([])
     return NotImplemented
